@@ -687,75 +687,24 @@ theorem foldl_max_ge (l : List Id) (init : Nat) :
     · subst e; exact Nat.le_trans (Nat.le_max_right _ _) h1
     · exact h2 s e
 
-theorem maxLen_ok {l : List Id} {w : Nat} (h : maxLen l = .ok w) : ∀ s ∈ l, s.length ≤ w := by
-  cases l with
-  | nil => simp [maxLen] at h
-  | cons a as =>
-    simp only [maxLen, Except.ok.injEq] at h
-    subst h
-    intro s hs
-    rcases List.mem_cons.mp hs with e | e
-    · subst e; exact (foldl_max_ge as _).1
-    · exact (foldl_max_ge as _).2 s e
-
-theorem maxLen_nil : maxLen [] = .error .value := rfl
-
-theorem maxLen_cons (a : Id) (as : List Id) : ∃ w, maxLen (a :: as) = .ok w := ⟨_, rfl⟩
-
-theorem maxLen_of_ne_nil {l : List Id} (h : l ≠ []) : ∃ w, maxLen l = .ok w := by
-  cases l with
-  | nil => exact absurd rfl h
-  | cons a as => exact maxLen_cons a as
+theorem maxLen_ok (l : List Id) : ∀ s ∈ l, s.length ≤ maxLen l := (foldl_max_ge l 0).2
 
 /-- the allocated width fits every new ID, and every old one when old IDs may be retained -/
-theorem idWidth_ok {m : List (Id × Id)} {ids : List Id} {strict : Bool} {w : Nat}
-    (h : idWidth m ids strict = .ok w) :
-    (∀ kv ∈ m, kv.2.length ≤ w) ∧ (strict = false → ∀ i ∈ ids, i.length ≤ w) := by
-  unfold idWidth at h
-  cases hm : maxLen (m.map (·.2)) with
-  | error e => simp [hm] at h
-  | ok w1 =>
-    have h1 := maxLen_ok hm
-    simp only [hm] at h
-    cases strict with
-    | true =>
-      simp only [if_true, Except.ok.injEq] at h
-      subst h
-      refine ⟨fun kv hkv => ?_, fun hc => by cases hc⟩
-      exact Nat.le_trans (h1 kv.2 (List.mem_map_of_mem hkv)) (Nat.le_max_left _ _)
-    | false =>
-      cases hi : maxLen ids with
-      | error e => simp [hi] at h
-      | ok w2 =>
-        have h2 := maxLen_ok hi
-        simp only [hi, Bool.false_eq_true, if_false, Except.ok.injEq] at h
-        subst h
-        refine ⟨fun kv hkv => ?_, fun _ i hi' => ?_⟩
-        · exact Nat.le_trans (h1 kv.2 (List.mem_map_of_mem hkv))
-            (Nat.le_trans (Nat.le_max_left _ _) (Nat.le_max_left _ _))
-        · exact Nat.le_trans (h2 i hi') (Nat.le_trans (Nat.le_max_right _ _) (Nat.le_max_left _ _))
-
-theorem idWidth_exists {m : List (Id × Id)} {ids : List Id} {strict : Bool}
-    (hm : m ≠ []) (hi : strict = false → ids ≠ []) : ∃ w, idWidth m ids strict = .ok w := by
+theorem idWidth_ok (m : List (Id × Id)) (ids : List Id) (strict : Bool) :
+    (∀ kv ∈ m, kv.2.length ≤ idWidth m ids strict) ∧
+    (strict = false → ∀ i ∈ ids, i.length ≤ idWidth m ids strict) := by
   unfold idWidth
-  obtain ⟨w1, h1⟩ := maxLen_of_ne_nil (l := m.map (·.2)) (by simpa using hm)
-  rw [h1]
+  have h1 := maxLen_ok (m.map (·.2))
+  have h2 := maxLen_ok ids
   cases strict with
-  | true => exact ⟨_, rfl⟩
+  | true =>
+    refine ⟨fun kv hkv => ?_, fun hc => by cases hc⟩
+    exact Nat.le_trans (h1 kv.2 (List.mem_map_of_mem hkv)) (Nat.le_max_left _ _)
   | false =>
-    obtain ⟨w2, h2⟩ := maxLen_of_ne_nil (hi rfl)
-    simp only [h2]
-    exact ⟨_, rfl⟩
-
-theorem idWidth_degenerate {m : List (Id × Id)} {ids : List Id} {strict : Bool}
-    (h : m = [] ∨ (strict = false ∧ ids = [])) : idWidth m ids strict = .error .value := by
-  unfold idWidth
-  rcases h with h | ⟨h1, h2⟩
-  · subst h; rfl
-  · subst h1 h2
-    cases m with
-    | nil => rfl
-    | cons a as => rfl
+    refine ⟨fun kv hkv => ?_, fun _ i hi' => ?_⟩
+    · exact Nat.le_trans (h1 kv.2 (List.mem_map_of_mem hkv))
+        (Nat.le_trans (Nat.le_max_left _ _) (Nat.le_max_left _ _))
+    · exact Nat.le_trans (h2 i hi') (Nat.le_trans (Nat.le_max_right _ _) (Nat.le_max_left _ _))
 
 theorem fit_of_le {w : Nat} {s : Id} (h : s.length ≤ w) : fit w s = s := by
   unfold fit; rw [if_pos h]
